@@ -18,6 +18,14 @@ Theorem C20_documented_keys_recorded : forall c ks k,
 Proof. exact documented_keys_recorded. Qed.
 Print Assumptions C20_documented_keys_recorded.
 
+(* every site of the regenerated directive tables hands its introspectable to an action (introspectables=) and
+   runs under an action method, so that its entry is registered with the calling statement's action info *)
+Theorem C20_sites_wired : forall s,
+  In s sites ->
+  exists w, In w sites_wiring /\ fst w = s_func s ++ [46%N] ++ s_var s /\ snd w = (true, true).
+Proof. exact sites_wired. Qed.
+Print Assumptions C20_sites_wired.
+
 Theorem C20_only_executed_are_recorded : forall executed s' c d,
   commit_register true init executed = Ok s' ->
   (lookup s' c d <> None <->
